@@ -41,13 +41,20 @@ class ErrorInfoModel:
 
 class Model:
     def __init__(self, tmpl: dict, plan: list, handler: Handler | None,
-                 case_once: bool = True) -> None:
+                 case_once: bool = True, guard_tags: bool = True) -> None:
         self.tree = tmpl["tree"]
         self.probe = Probe(tmpl["sites"], plan)
         self.handler = handler
         self.out: list[str] = []
         self.error = None
         self.case_once = case_once
+        # on-error on an element with a tal:omit-tag *expression*: does the
+        # fallback carry the element's tags when the guard was evaluated
+        # and came out false (the element does show its tags then)?  The
+        # property says "its start tag ... and its end tag"; True = that.
+        self.guard_tags = guard_tags
+        self.guard_value: dict[int, bool] = {}   # eid -> last guard value
+        self.guard_relevant = False
         self.cur_expr = None          # outermost statement expression
         self.handled = 0
         self.macros: dict[str, dict] = {}
@@ -204,6 +211,7 @@ class Model:
             self.element(n, switch_state)
             return
         mark = len(self.out)
+        self.guard_value.pop(n.get("eid"), None)
         try:
             self.element(n, switch_state)
         except Exception as exc:        # noqa: BLE001 - that is the rule
@@ -220,6 +228,12 @@ class Model:
             # macro - has no tag in its fallback either)
             tagged = (not n["talns"]) and n["omit"] is None and \
                 not n.get("use_macro")
+            if (not n["talns"]) and n["omit"] not in (None, "") and \
+                    self.guard_value.get(n["eid"]) is False:
+                # the guard had been evaluated and the tags were showing
+                self.guard_relevant = True
+                if self.guard_tags:
+                    tagged = True
             if tagged:
                 self.out.append("<" + n["tag"])
                 for name, parts in n["static"]:
@@ -314,7 +328,9 @@ class Model:
         if n["omit"] == "":
             show_tag = False
         elif n["omit"] is not None and show_tag:
+            self.guard_value.pop(n["eid"], None)
             show_tag = not self.ev(n["omit"])
+            self.guard_value[n["eid"]] = not show_tag
         if show_tag:
             self.out.append("<" + n["tag"])
             dyn = {a[0]: a[1] for a in n["attributes"]}
@@ -386,6 +402,7 @@ class Model:
         res["history"] = list(self.probe.history)
         res["handler"] = list(self.handler.calls) if self.handler else []
         res["handled"] = self.handled
+        res["guard_relevant"] = self.guard_relevant
         res["err_records"] = self.err_records
         return res
 
